@@ -49,7 +49,7 @@ pub fn def(prop: &str) -> Option<CheckDef> {
         },
         "C03" => CheckDef {
             prop: "C03",
-            quick_runs: 600_000,
+            quick_runs: 1_000_000,
             thorough_runs: 30_000_000,
             level: "exploration",
             rule: "small multi-task programs (2-3 tasks x 1-3 calls over the whole API: every send/receive variant, drain, iterator, close, clone/convert/drop, all observers; tasks may hold both sides) run under seeded schedules; the observed results are accepted only if an exhaustive memoised search over the reference channel's atomic-step interleavings reproduces them; non-trivial = operations of two tasks overlapped; distinct = distinct (workload shape hash, history hash) pairs",
